@@ -44,7 +44,7 @@ def budget(tier):
 
 
 META = [b"(", b")", b"[", b"]", b"{", b"}", b"*", b"+", b"?", b"|", b"\\", b"^", b"$", b".", b"-", b",", b":", b"[:", b":]", b"[=", b"\\<", b"\\>",
-        b"{1,2}", b"{3,1}", b"{200}", b"{1,200}", b"{,}", b"{99999999999}", b"{-1}", b"a{2}{3}", b"[[:alpha:]]", b"[[:", b"[^", b"[]", b"[a-", b"[z-a]",
+        b"{1,2}", b"{3,1}", b"{2,0}", b"a{1,0}", b"{0,0}", b"{,0}", b"(ab){3,0}", b"{200}", b"{1,200}", b"{,}", b"{99999999999}", b"{-1}", b"a{2}{3}", b"[[:alpha:]]", b"[[:", b"[^", b"[]", b"[a-", b"[z-a]",
         b"(a)" * 33, b"(" * 70 + b"a" + b")" * 70, b"a?" * 40, b"(a|b)", b"\xc3", b"\xe6\x97", b"\xf0\x9f\x98", b"\xf6", b"\xff", b"\x80", b"\xc3\xa9", b"\xe6\x97\xa5"]
 piece = st.one_of(st.sampled_from(META), st.sampled_from(META), st.binary(min_size=1, max_size=4), st.sampled_from([b"a", b"b", b"ab", b"1", b" "]))
 pattern_bytes = st.lists(piece, min_size=1, max_size=10).map(b"".join).map(lambda b: b.replace(b"\x00", b"a").replace(b"\n", b"b")[:300])
@@ -160,6 +160,9 @@ def _sweep_patterns(k):
         (b"a{%d}" % k, a * k),
         (b"a{%d,}" % k, a * (k + 1)),
         (b"a{1,%d}b" % k, a * k + b"b"),
+        (b"a{%d,0}" % k, a * k),
+        (b"(ab){%d,0}c" % k, b"ab" * k + b"c"),
+        (b"a{%d,%d}" % (k, max(0, k - 1)), a * k),
         (b"(a){%d}" % k, a * k),
         (b"(a{2}){%d}" % (k // 2 + 1), a * (2 * (k // 2 + 1))),
         (b"[" + bytes(0x30 + (i % 70) for i in range(k)) + b"]+", bytes(0x30 + (i % 70) for i in range(k))),
